@@ -380,7 +380,9 @@ MorphClauses(e) ==
        C14_morph_gaps_preserved |-> okc => \A i \in 1..(n - 1) : r[i + 1].s - r[i].e = es[i + 1].s - es[i].e,
        C14_morph_first_start_preserved |-> (okc /\ n > 0) => r[1].s = es[1].s,
        C14_morph_trailing_gap_preserved |-> (okc /\ n > 0) => e.ret.hi - r[n].e = e.pre.hi - es[n].e,
-       C14_morph_lo_kept |-> okc => e.ret.lo = e.pre.lo ]
+       C14_morph_lo_kept |-> okc => e.ret.lo = e.pre.lo,
+       \* nothing to morph: the span (whose end is "the trailing gap" of no interval) stays
+       C14_morph_of_empty_tiers_keeps_the_span |-> (okc /\ n = 0) => e.ret.hi = e.pre.hi ]
 
 (* ---------------- constructors (C05) --------------------------------------------- *)
 \* e.args.raw: the entry list handed to IntervalTier(...) / PointTier(...) in any order, possibly overlapping or degenerate;
